@@ -155,6 +155,37 @@ CLAIMED = {
             "Trusts vf/symx/sscalar.py, sympy expand, z3 nlsat; ThermalRelaxationError, QubitChannel and everything about "
             "default.mixed's evolution (PSD, trace, Kraus-sum simulation) is not covered.",
             "DESIGN.md 4 C28", "E2"),
+    "C20": ("proof",
+            "sidecar contracts on the bookkeeping core of transforms/split_non_commuting.py (_split_all_multi_term_obs_mps, "
+            "_processing_fn_no_grouping, _processing_fn_with_grouping, _sum_terms) and the post-processing closure of "
+            "split_to_single_terms.py: VCs from the real ASTs on enumerated tape / dictionary SHAPES with symbolic coefficients, "
+            "offsets, results and observable identities (dictionaries with symbolic key identity fork on key equality); results "
+            "compared with the sum formula over an uninterpreted result function val that is linear for expectation values; a "
+            "composition lemma links splitter and post-processing; z3; counter-models replayed on real tapes",
+            "For tapes of 1-3 measurements over 13 measurement shapes (sums of <= 3 terms with Identity anywhere, SProd, plain, "
+            "non-expectation measurements): every original measurement j is recovered as offsets[j] + sum coeff*val(single-term "
+            "measurement), in the original order, unwrapped for a single measurement; shared single-term measurements are "
+            "re-used correctly; scalar coefficients, identity terms and constant offsets preserved (539 VCs).",
+            "Size-bounded in shapes, complete in values; linearity of expectation values and val(expval(I)) == 1 are assumed "
+            "axioms; grouping strategies, tape construction, diagonalize_measurements / sign_expand / broadcast_expand / "
+            "batch_* and execution are outside. F13 fixed in repo.",
+            "DESIGN.md 4 C20", "E1"),
+    "C22": ("proof",
+            "sidecar contracts on transforms/resolve_dynamic_wires.py (_WireManager.__init__/get_wire/_get_zeroed/_get_any/"
+            "_add_new_wire/return_wire, the generator _new_ops, resolve_dynamic_wires set-up) and the device call site "
+            "devices/preprocess.device_resolve_dynamic_wires: VCs from the real ASTs on free stacks of SYMBOLIC length, a symbolic "
+            "loan map and min_int, ghost sets Static / Given / Minted and a ghost predicate zero(w); setof / nodup spec functions "
+            "through instances of their defining equations; _new_ops over a symbolic-length operation sequence with three loop "
+            "cuts, modular through the verified get_wire / return_wire postconditions; z3; counter-models replayed natively",
+            "For all stack contents, loan maps and allocation histories: well_formed is preserved; get_wire hands out a wire "
+            "that is not on loan (LIFO pop or a freshly minted integer), zero on request (possibly through a returned reset "
+            "measurement), a static wire only if it was handed in; AllocationError exactly when no wire can be supplied and NO "
+            "other exception (F8: the unguarded pops are unreachable); return_wire restores the register recorded at loan "
+            "time; _new_ops keeps wire_map injective into the loans and disjoint from the free stacks - no two live dynamic "
+            "wires share a concrete wire. The device call site establishes the freshness precondition of min_int (size-bounded).",
+            "Operators are abstract records (map_wires, measure(reset=True) assumed); 'same results as a fresh wire per "
+            "allocation' needs a simulator and is not covered. F26 fixed in repo.",
+            "DESIGN.md 4 C22", "E1"),
     "C23": ("proof",
             "sidecar contracts on core/transforms/compile_pipeline.py (+ the real BoundTransform accessors): (A) __call_tapes, "
             "_batch_postprocessing and _apply_postprocessing_stack executed from their ASTs with UNINTERPRETED tape transforms "
@@ -197,6 +228,30 @@ CLAIMED = {
             "Partial correctness (decomposition DAG termination assumed); sign well-formedness of decompositions assumed for the "
             "wire statements; estimate()/queue plumbing and concrete library decompositions are not checked individually.",
             "DESIGN.md 4 C47", "E1"),
+    "C30": ("proof",
+            "sidecar contracts on measurements/counts.py (CountsMP.process_counts, _map_counts, _include_all_outcomes, "
+            "_remove_unobserved_outcomes): VCs from the real ASTs on dictionaries with concrete outcome strings, SYMBOLIC integer "
+            "counts and symbolic eigenvalues (string operations are run by the interpreter itself, symbolic-key dictionaries fork "
+            "on key equality); every resulting dictionary is compared key by key with the restriction-sum formula; z3",
+            "For <= 3 device wires, every (quick: every second) ordered selection of measured wires, identity and permuted wire "
+            "orders and the enumerated key sets, with ALL count and eigenvalue values: mapped[s] is the sum of the counts whose "
+            "restriction is s (totals preserved); all_outcomes gives exactly the 2^n strings with zeros for unobserved ones, "
+            "otherwise exactly the non-zero ones; the eigenvalue branch sums per distinct eigenvalue (4994 VCs).",
+            "Size-bounded (counts dictionaries only); process_samples / _samples_to_counts (numpy code) and every other "
+            "measurement's sample post-processing are not covered.",
+            "DESIGN.md 4 C30", "E1"),
+    "C39": ("proof",
+            "contract on compute_vjp_single/_multi, compute_jvp_single/_multi, vjp, jvp, batch_vjp, batch_jvp (result == explicit "
+            "contraction of the Jacobian with the cotangent / tangent, shape included): the REAL functions are executed on numpy "
+            "object arrays of independent symbolic scalars (one symbol per Jacobian / cotangent / tangent entry; the tape-level "
+            "functions get a gradient_fn yielding the symbolic Jacobian) and compared with the contraction as polynomials "
+            "(normal form); float replay",
+            "For every enumerated shape class (scalar / vector measurements, 1-3 parameters, 1-3 measurements of mixed shapes, "
+            "2-copy shot vectors, zero / partially zero cotangents, tapes without trainable parameters, batches of 2-3 tapes with "
+            "both reductions) and ALL values: the results are exactly the contractions the property names (95 obligations).",
+            "Size-bounded in shapes (dimensions <= 3), complete in values; numpy interface; classical_jacobian, other "
+            "interfaces and gradient_fn itself are outside. F25 (batch_jvp reduction='extend' on scalar JVPs) open.",
+            "DESIGN.md 4 C39", "E2"),
     "C40": ("proof",
             "sidecar contracts over the parameter-list view P on the real methods of core/qscript.py (par_info, trainable_params "
             "getter/setter, num_params, get_operation, get_parameters, data, bind_new_parameters, copy): VCs generated from the "
@@ -275,6 +330,20 @@ CLAIMED = {
             "(Executor.map / Pool.map / starmap / apply return results in input order) - schedules are not explored. F10, F10b, "
             "F22 fixed in repo; F23 (MPPoolExec.map rejects uneven lengths, documented precondition) open.",
             "DESIGN.md 4 C65", "E1"),
+    "C66": ("other",
+            "frame / aliasing contracts on decomposition/decomposition_rule.py (local_decomps, add_decomps, _fix_decomp, "
+            "get_fixed_decomp, list_decomps, has_decomp, DecompCollection.__init__/copy/append/extend): the real code is executed "
+            "from its AST on enumerated registry shapes with object identity tracked across snapshots; local_decomps runs with "
+            "an ADVERSARIAL, possibly raising, with-body substituted at its yield under full try/finally semantics, with normal "
+            "and exceptional postconditions on identities and deep contents; ContextVar get/set/reset is an assumed stdlib "
+            "contract (a per-context token cell)",
+            "Inside the context both ContextVars hold fresh registries none of whose mutable parts alias the outer ones, with "
+            "the outer contents visible; whatever the body mutates or raises, afterwards both variables hold the outer objects "
+            "again with identities and deep contents unchanged; mutators write only through *_var.get(); list_decomps hands "
+            "out copies - on three registry shapes (0-2 operators, <= 2 rules each, 0-1 fixed rule).",
+            "Size-bounded (level other); isolation between threads / tasks rests solely on the contextvars assumption - no "
+            "schedule is explored.",
+            "DESIGN.md 4 C66", "E1+E3"),
     "C73": ("proof",
             "sidecar contracts on devices/tracker.py, devices/modifiers/simulator_tracking.py (the seven wrapper closures and "
             "the decorator) and qubit/sampling.get_num_shots_and_executions (VCs from the real ASTs, all paths, z3): history "
